@@ -274,7 +274,10 @@ struct ZooEntry
     int variant{0};
 };
 
-inline std::vector<ZooEntry> zoo_entries(bool with_files = true)
+//! `extended` (default off: existing users keep their zoo) appends inputs added later:
+//!   hex-array: 51-cell unit bounded by general planes `p` at an INTERMEDIATE level (leaf
+//!   boundaries elided), 50 daughters, BIH with strongly overlapping cell boxes
+inline std::vector<ZooEntry> zoo_entries(bool with_files = true, bool extended = false)
 {
     std::vector<ZooEntry> v;
     v.push_back({"g1", "", 1, 0});
@@ -314,6 +317,8 @@ inline std::vector<ZooEntry> zoo_entries(bool with_files = true)
             auto b = s.rfind('/');
             v.push_back({s.substr(b + 1, s.size() - b - 1 - 9), base + "/" + s, 0, 0});
         }
+        if (extended)
+            v.push_back({"hex-array", base + "/test/orange/data/hex-array.org.json", 0, 0});
     }
     return v;
 }
